@@ -1,5 +1,12 @@
 import NiflyVerif.Util.IndexLemmas
-/-! C18 property theorems -/
+/-!
+# C18 — index-remapping and strip utilities agree with their mathematical definition
+
+Only property theorems and their non-vacuity examples live here; helper lemmas are in
+`Util/IndexLemmas.lean`, the loop models in `Util/IndexOps.lean`.
+`Asc idx` = strictly ascending (the documented precondition "sorted ascending" of an index
+*set*).  Index lists may contain out-of-range positions unless a theorem says otherwise.
+-/
 namespace Nifly.Util
 
 /-- erase loop = naive definition, for every strictly ascending index list (in range or not). -/
@@ -37,5 +44,233 @@ theorem erase_eq_spec (v : List α) (idx : List Nat) (hasc : Asc idx) :
       simp only [eraseSpecFrom, List.mem_cons, true_or, if_true]
       rw [eraseSpecFrom_cons_lt _ _ _ _ (by omega)]
       exact eraseLoop_eq_spec _ _ _ hasc' (fun j hj => by have := hlt j hj; omega)
+
+example : erase [10, 11, 12, 13, 14] [1, 3, 9] = [10, 12, 14] := by decide
+
+/-- Cursor arithmetic of the erase loop for EVERY index list (sorted or not, in range or not):
+each move `v[di] = v[si]` has `di < si < v.size()`, i.e. no access outside the container. -/
+theorem erase_in_bounds (n i0 : Nat) (is : List Nat) (h0 : i0 < n) :
+    ∀ a ∈ eraseAccesses (n - (i0 + 1)) i0 (i0 + 1) is, a.1 < a.2 ∧ a.2 < n := by
+  intro a ha
+  have := eraseAccesses_bounds (n - (i0 + 1)) i0 (i0 + 1) is (by omega) a ha
+  omega
+
+/-- collapse loop = naive definition (−1 exactly on listed positions, a survivor goes to its rank). -/
+theorem collapse_eq_spec (idx : List Nat) (n : Nat) (hasc : Asc idx) :
+    collapseMap idx n = collapseSpec idx n := by
+  unfold collapseMap collapseSpec
+  rw [collapseLoop_eq n 0 0 idx hasc (by simp), List.range_eq_range']
+  apply List.map_congr_left
+  intro i _
+  simp
+
+example : collapseMap [1, 3] 6 = [0, -1, 1, -1, 2, 3] := by decide
+
+/-- expand map: entry `s` is a position that is not listed, namely the one with exactly `s`
+unlisted positions before it (`v = s + #{i ∈ idx | i < v}`); -/
+theorem expand_spec (idx : List Nat) (m : Nat) (hasc : Asc idx) (s : Nat) (hs : s < m) :
+    ∃ v : Nat, (expandMap idx m)[s]? = some (v : Int) ∧ v ∉ idx ∧ v = s + (idx.filter (· < v)).length := by
+  obtain ⟨v, h1, h2, h3⟩ := expandLoop_spec m 0 idx hasc (by simp) s hs
+  exact ⟨v, h1, h2, by omega⟩
+
+/-- … hence collapsing after expanding is the identity on survivors. -/
+theorem collapse_expand (idx : List Nat) (m n : Nat) (hasc : Asc idx) (s : Nat) (hs : s < m) :
+    ∃ v : Nat, (expandMap idx m)[s]? = some (v : Int) ∧ (v < n → (collapseMap idx n)[v]? = some (s : Int)) := by
+  obtain ⟨v, h1, h2, h3⟩ := expand_spec idx m hasc s hs
+  refine ⟨v, h1, fun hv => ?_⟩
+  rw [collapse_eq_spec idx n hasc]
+  unfold collapseSpec
+  rw [List.getElem?_map, List.getElem?_range hv]
+  simp only [Option.map_some, h2, if_false, Option.some.injEq, Int.natCast_inj]
+  omega
+
+example : expandMap [1, 3] 4 = [0, 2, 4, 5] := by decide
+
+/-- insertion loop: for a strictly ascending list of valid target positions there is no
+out-of-range read, the result has `v.length + idx.length` slots, the occupied slots are `v` in
+order, and slot `p` is an (unspecified-value) inserted slot iff `p` is listed. -/
+theorem insert_spec (v : List α) (idx : List Nat) (hasc : Asc idx)
+    (hlt : ∀ i ∈ idx, i < v.length + idx.length) :
+    (insert v idx).2 = false ∧ (insert v idx).1.length = v.length + idx.length ∧
+      (insert v idx).1.filterMap id = v ∧
+      ∀ p, (insert v idx).1[p]? = some none ↔ p ∈ idx := by
+  unfold insert
+  cases hl : idx.getLast? with
+  | none =>
+    have : idx = [] := by simpa using hl
+    subst this
+    simp [List.filterMap_map]
+  | some l =>
+    have hmem : l ∈ idx := List.mem_of_getLast? hl
+    have hl' : ¬ (l ≥ v.length + idx.length) := by have := hlt l hmem; omega
+    simp only [hl', if_false]
+    have hd : Desc idx.reverse := List.pairwise_reverse.mpr hasc
+    obtain ⟨r1, r2, r3, r4⟩ := insertLoopRev_spec (v.length + idx.length) v.reverse idx.reverse hd
+      (fun i hi => hlt i (by simpa using hi)) (by simp)
+    generalize insertLoopRev (v.length + idx.length) v.reverse idx.reverse = out at r1 r2 r3 r4
+    obtain ⟨o1, o2⟩ := out
+    simp only at r1 r2 r3 r4 ⊢
+    refine ⟨r1, by simp [r2], ?_, ?_⟩
+    · rw [List.filterMap_reverse, r3, List.reverse_reverse]
+    · intro p
+      by_cases hp : p < v.length + idx.length
+      · rw [List.getElem?_reverse (by omega), r2, r4 p hp]; simp
+      · constructor
+        · intro h
+          have : p < o1.reverse.length := by
+            rcases List.getElem?_eq_some_iff.mp h with ⟨hh, _⟩; exact hh
+          simp [r2] at this; omega
+        · intro h; have := hlt p h; omega
+
+/-- erase then re-insert restores positions: the length is restored and every surviving
+element is back at its original position. -/
+theorem insert_erase (v : List α) (idx : List Nat) (hasc : Asc idx) (hin : ∀ i ∈ idx, i < v.length) :
+    (insert (erase v idx) idx).2 = false ∧ (insert (erase v idx) idx).1 = maskFrom 0 v idx := by
+  have hnd : idx.Nodup := hasc.imp (fun h => Nat.ne_of_lt h)
+  have hsub : idx.length + (eraseSpec v idx).length = v.length := by
+    unfold eraseSpec
+    rw [← maskFrom_filterMap]
+    -- count the empty slots
+    have key : ∀ (s : Nat) (w : List α) (l : List Nat), l.Nodup → (∀ i ∈ l, s ≤ i ∧ i < s + w.length) →
+        l.length + ((maskFrom s w l).filterMap id).length = w.length := by
+      intro s w
+      induction w generalizing s with
+      | nil =>
+        intro l _ hl
+        cases l with
+        | nil => rfl
+        | cons a _ => have := hl a (by simp); simp at this; omega
+      | cons x xs ih =>
+        intro l hnd hl
+        simp only [maskFrom]
+        by_cases hs : s ∈ l
+        · have hl' := ih (s + 1) (l.erase s) (hnd.erase s) (fun i hi => by
+            have hne : i ≠ s := by
+              intro h; subst h; exact (List.Nodup.not_mem_erase hnd) hi
+            have := hl i (List.mem_of_mem_erase hi); simp at this; omega)
+          have hfm : (maskFrom (s + 1) xs (l.erase s)).filterMap id = (maskFrom (s + 1) xs l).filterMap id := by
+            rw [maskFrom_filterMap, maskFrom_filterMap]
+            clear hl' ih hl
+            have : ∀ (t : Nat) (ys : List α), s < t → eraseSpecFrom t ys (l.erase s) = eraseSpecFrom t ys l := by
+              intro t ys
+              induction ys generalizing t with
+              | nil => intros; rfl
+              | cons y ys ih2 =>
+                intro ht
+                have hiff : t ∈ l.erase s ↔ t ∈ l := by
+                  rw [List.Nodup.mem_erase_iff hnd]; constructor
+                  · exact fun h => h.2
+                  · exact fun h => ⟨by omega, h⟩
+                simp only [eraseSpecFrom, hiff, ih2 (t + 1) (by omega)]
+            exact this (s + 1) xs (by omega)
+          simp only [hs, if_true, List.filterMap_cons, id, List.length_cons]
+          rw [← hfm]
+          have : (l.erase s).length = l.length - 1 := List.length_erase_of_mem hs
+          have hpos : 0 < l.length := List.length_pos_of_mem hs
+          omega
+        · have hl' := ih (s + 1) l hnd (fun i hi => by
+            have hne : i ≠ s := by intro h; subst h; exact hs hi
+            have := hl i hi; simp at this; omega)
+          simp only [hs, if_false, List.filterMap_cons, id, List.length_cons]
+          omega
+    exact key 0 v idx hnd (fun i hi => by have := hin i hi; omega)
+  have hes : erase v idx = eraseSpec v idx := erase_eq_spec v idx hasc
+  obtain ⟨r1, r2, r3, r4⟩ := insert_spec (erase v idx) idx hasc (fun i hi => by
+    rw [hes]; have := hin i hi; omega)
+  refine ⟨r1, ?_⟩
+  apply opt_ext
+  · rw [r2, maskFrom_length, hes]; omega
+  · intro p
+    rw [r4 p, maskFrom_none]
+    constructor
+    · intro h; exact ⟨hin p h, by simpa using h⟩
+    · intro h; simpa using h.2
+  · rw [r3, maskFrom_filterMap, hes]; rfl
+
+/-- concretely: every survivor is back where it was. -/
+theorem insert_erase_get (v : List α) (idx : List Nat) (hasc : Asc idx) (hin : ∀ i ∈ idx, i < v.length)
+    (p : Nat) (hp : p < v.length) (hn : p ∉ idx) :
+    (insert (erase v idx) idx).1[p]? = some (some v[p]) := by
+  rw [(insert_erase v idx hasc hin).2]
+  exact maskFrom_get 0 v idx p hp (by simpa using hn)
+
+example : (insert (erase [10, 11, 12, 13, 14] [1, 3]) [1, 3]).1 = [some 10, none, some 12, none, some 14] := by
+  decide
+
+/-- triangle remap: the surviving triangles are exactly those whose three corners are in the
+map with a non-negative image, re-indexed, in their original order; the reported deleted
+positions are exactly the positions of the others. -/
+theorem applyMap_spec (map : List Int) (tris : List Tri) :
+    applyMap map tris = (tris.filterMap (mapTri map), droppedFrom map 0 tris) := by
+  unfold applyMap
+  rw [Prod.ext_iff]
+  exact ⟨applyMapLoop_fst map 0 tris, applyMapLoop_snd map 0 tris⟩
+
+theorem mapTri_some_iff (map : List Int) (t : Tri) :
+    (mapTri map t).isSome ↔
+      ∃ a b c, map[t.p1]? = some a ∧ map[t.p2]? = some b ∧ map[t.p3]? = some c ∧ 0 ≤ a ∧ 0 ≤ b ∧ 0 ≤ c := by
+  unfold mapTri
+  split
+  · rename_i a b c h1 h2 h3
+    simp only [h1, h2, h3, Option.some.injEq]
+    constructor
+    · intro h
+      refine ⟨a, b, c, rfl, rfl, rfl, ?_⟩
+      split at h
+      · simp at h
+      · omega
+    · rintro ⟨a', b', c', e1, e2, e3, h⟩
+      cases e1; cases e2; cases e3
+      have : ¬ (a < 0 ∨ b < 0 ∨ c < 0) := by omega
+      simp [this]
+  · rename_i hne
+    simp only [Option.isSome_none, Bool.false_eq_true, false_iff]
+    rintro ⟨a, b, c, h1, h2, h3, _⟩
+    exact hne a b c h1 h2 h3
+
+example : applyMap [0, -1, 1, 2, 3] [⟨0, 1, 2⟩, ⟨2, 3, 4⟩] = ([⟨1, 2, 3⟩], [0]) := by decide
+
+/-- strip expansion of one strip = its windows `(s[k], s[k+1], s[k+2])`, alternately wound,
+degenerate windows dropped; strips with fewer than three points give nothing. -/
+theorem strip_eq_spec (s : List Nat) : stripTris s = stripTrisSpec s := by
+  unfold stripTrisSpec
+  match s with
+  | [] => rfl
+  | [_] => rfl
+  | [_, _] => rfl
+  | a :: b :: c :: cs =>
+    simp only [stripTris, stripLoop_eq, List.length_cons]
+    have : cs.length + 1 + 1 + 1 - 2 = cs.length + 1 := by omega
+    rw [this]
+    congr 1
+    funext k
+    unfold stripWindow
+    have : (2 + k) % 2 = k % 2 := by omega
+    simp only [this]
+    rfl
+
+theorem strips_eq_spec (strips : List (List Nat)) :
+    stripsToTris strips = strips.flatMap fun s => stripTrisSpec (s.map (· % 65536)) := by
+  unfold stripsToTris
+  congr 1
+  funext s
+  exact strip_eq_spec _
+
+example : stripsToTris [[0, 1, 2, 3, 3, 4], [1, 2]] = [⟨0, 1, 2⟩, ⟨1, 3, 2⟩] := by decide
+
+/-- every triangle produced from strips is non-degenerate -/
+theorem strips_nondegenerate (s : List Nat) : ∀ t ∈ stripTrisSpec s, t.p1 ≠ t.p2 ∧ t.p2 ≠ t.p3 ∧ t.p3 ≠ t.p1 := by
+  intro t ht
+  unfold stripTrisSpec at ht
+  obtain ⟨k, _, hk⟩ := List.mem_filterMap.mp ht
+  unfold stripWindow at hk
+  split at hk
+  · split at hk
+    · rename_i h
+      simp only [Option.some.injEq] at hk
+      subst hk
+      split <;> simp <;> omega
+    · simp at hk
+  · simp at hk
 
 end Nifly.Util
